@@ -130,7 +130,8 @@ def handle(c):
     per_prob = {}
     for ci, cfg in enumerate(c['cfgs']):
         key = (cfg.get('mode'), cfg.get('lin'), cfg.get('jac'), cfg.get('nl'), cfg.get('mf', True),
-               json.dumps(cfg.get('rhs'), sort_keys=True))
+               json.dumps(cfg.get('rhs'), sort_keys=True), bool(cfg.get('approx')), bool(cfg.get('approx_any')),
+               bool(cfg.get('lazy')))
         try:
             if key not in probs:
                 p = ob.build(spec, cfg)
